@@ -25,6 +25,7 @@ PROBES = ('domain_without_examples', 'window_fully_rolled_over', 'empty_cluster_
           'clip_triggered', 'clip_not_triggered', 'coefficient_hit_bound_0_or_1', 'returning_client', 'restart_between_rounds',
           'domain_absent_from_whole_window', 'frozen_leaf_nonzero_grad', 'whole_cohort_dropout')
 ASSUMPTIONS = [
+    'ignore_grads_haiku is given haiku immutable-dict params (its documented input); with a plain dict it returns another container type and FedAvg rejects the mismatch - a container-type matter outside the stated property',
     'finite inputs; domain learning rate x loss stays far below float32 exp overflow (lr <= 1, losses < 10)',
     'client_delta_clip_norm > 0 and domain_window_size >= 1 (nothing defines the other cases)',
     'HypCluster monitors use the rng-free loss (the algorithm splits client keys internally)',
@@ -321,6 +322,9 @@ def _exec_ignore(sc, pop, ids, trace, probes, faults, viols, violation):
   params = {'linear': {'w': jnp.asarray(np.array([g.uniform(-1, 1) for _ in range(d)], np.float32)),
                        'b': jnp.asarray(np.float32(g.uniform(-1, 1)))},
             'frozen': {'w': jnp.asarray(np.array([g.uniform(0.5, 1.5) for _ in range(d)], np.float32))}}
+  # ignore_grads_haiku documents haiku-style params and returns haiku's immutable mapping; give it that type
+  import haiku as hk
+  params = hk.data_structures.to_immutable_dict(params)
 
   def loss(p, batch, rng):
     pred = (batch['x'] * p['frozen']['w']) @ p['linear']['w'] + p['linear']['b']
